@@ -98,7 +98,9 @@ CLAIMED["C07"] = (
     "clash rounds, finds the withdrawn-collision counterexample, and every real trace is re-executed frame by frame "
     "on the unit model before P1..P6 are evaluated; simulated behaviours must reproduce exactly on the real code. A "
     "byte-boundary instance (random addresses 0x123456 / 0xFFFEFF / 0xFFFF80) is checked exhaustively, all its terminal "
-    "states are replayed, and a model variant with a seeded slip (skip-unchanged-bytes, C07f) must violate P2.",
+    "states are replayed, and a model variant with a seeded slip (skip-unchanged-bytes, C07f) must violate P2. Faults: "
+    "units that do not store a programmed address, and (re-addressing, all 64 addresses permitted) an addressed unit "
+    "whose address memory cannot be written at all (Gear102 stuckdel).",
     "Trusted: TLC; my reading of IEC 62386-102 11.7 (RANDOMISE / PROGRAM SHORT ADDRESS act on units that are not "
     "DISABLED); bus rule 0/1/>=2 answers -> none/value/framing error. The Python unit simulator is re-executed by TLC.",
     "DESIGN.md §5 C07")
@@ -111,8 +113,11 @@ CLAIMED["C08"] = (
     "lists, structured (quick) / all 2^16 (thorough) group sets, SetGroups pairs x destination kinds, every stream of "
     "length <= 4 (quick) / 6 (thorough) over the alphabet, and the longest ascending stream.",
     "Trusted: TLC; the unit model's QUERY NEXT DEVICE TYPE iteration. Value 255 inside an iteration and an empty "
-    "iteration are treated as unspecified.",
-    "DESIGN.md §5 C08")
+    "iteration are treated as unspecified. Extension (outside the anchored files, never a verdict): GearLevels.tla "
+    "models arc-power level, limits and scenes (IEC reading exhaustive; the reading that follows dali/tests/fakes.py "
+    "with two named deviations that must violate LimitsOrdered / ZeroSceneIsOff); every arc of its state graph is "
+    "replayed on fakes.Gear through the real command objects (32 400 arcs, drift 0).",
+    "DESIGN.md §5 C08, §15.27")
 
 CLAIMED["C09"] = (
     "model_checking",
